@@ -5,7 +5,7 @@ from ..runner import Part
 
 PROP = "C04"
 RULE = (
-    "rings of 2-5 time-stepped models (steps 1-5 min, varying), optional chord (closing a second cycle), tail "
+    "rings of 2-5 time-stepped models (steps 1-5 min, varying; a quarter with staggered start times), optional chord (closing a second cycle), tail "
     "and pull-based member, pass-through/linear adapters anywhere, all listing and link orders; delay mode "
     "none | dependency-breaking adapter | sufficient total on one adapter | sufficient total split over 2-3 "
     "adapters of one link | sufficient total spread over several links | insufficient (1..need-1), need = sum "
@@ -17,6 +17,7 @@ RULE = (
 ASSUMPTIONS = [
     "sufficiency: a reported cycle needs t_{i+1} < t_i + s_i - d_i around the ring, so sum d >= sum of largest steps excludes it",
     "a chord closes a second cycle and therefore carries its own sufficient delay in the modes that promise a run",
+    "staggered starts (a quarter of the rings): an undelayed ring may complete if the run ends before the cycle becomes active (data published at connect time suffices); it is then judged by the C01/C02/C03 monitors like any completed run",
 ]
 
 
@@ -37,9 +38,18 @@ def check(spec, ctx):
     if outcome not in ("ok", "FinamCircularCouplingError"):
         ctx.violation(f"wrong-error:{outcome}", f"{msg[:200]}" + info)
         return
+    starts = {c["start"] for c in spec["comps"] if c["kind"] == "model"}
+    stag = len(starts) > 1 or spec["end"] <= max(starts)  # not everybody has to update: the cycle may stay inactive
+    if len(starts) > 1:
+        ctx.event("staggered-starts")
     if mode == "none" and outcome == "ok":
-        ctx.violation("cycle-not-reported", "ring without any delay ran to completion" + info)
-        return
+        if not stag:
+            ctx.violation("cycle-not-reported", "ring without any delay ran to completion" + info)
+            return
+        # a late starter's connect-time publications (composition start and own start) can carry the others up to
+        # its start: if the run ends before anybody needs data the cycle would have to produce, no dependency cycle
+        # ever becomes active. Such a run is acceptable only with clean scheduling monitors (checked below).
+        ctx.event("undelayed-ring-ends-before-the-cycle-is-active")
     if mode in ("suff", "suff_split", "suff_multi", "dpush") and outcome != "ok":
         ctx.violation(f"false-circular:{mode}", f"cycle with sufficient delay reported as circular: {msg[:160]}" + info)
         return
